@@ -39,7 +39,7 @@ def run(tier, seed, replay):
     exit_code = 0
     if races:
         path = core.write_replay(pid, {"property": pid, "kind": "monitor", "what": "the race detector reported a data race during the stress of documented concurrent use",
-                                       "races": races[:5], "replay": [{"cmd": "VERIF_STRESS=%d .work/build/h-%s-race.test -test.run ^TestStress" % (rounds, races[0]["version"])}]})
+                                       "races": races[:5], "replay": [{"cmd": "./check C20 --tier %s (builds harness/%s with -race and runs ^TestStress with VERIF_STRESS=%d)" % (tier, races[0]["version"], rounds)}]})
         lines.append("VIOLATION property=%s replay=%s" % (pid, path))
         exit_code = 1
     elif proofs["failures"] or failures_other:
